@@ -3,11 +3,12 @@
 package rockredis
 
 // VerifPointHook, when set, is called at named points of the checkpoint
-// (backup), purge and restore paths. Only compiled with the verif build tag.
-var VerifPointHook func(name string)
+// (backup), purge and restore paths with the data directory of the calling
+// store. Only compiled with the verif build tag.
+var VerifPointHook func(name string, dataDir string)
 
-func verifPoint(name string) {
+func (r *RockDB) verifPoint(name string) {
 	if h := VerifPointHook; h != nil {
-		h(name)
+		h(name, r.cfg.DataDir)
 	}
 }
